@@ -1,5 +1,6 @@
 //! fx — mechanical extractor/translator from /repo's working tree to the verified text.
 //! Usage: fx gen --repo /repo --verif /verif --out /verif/gen [--units arith,effect,...]
+mod arena;
 mod arith;
 mod effect;
 mod effect_ir;
@@ -74,6 +75,16 @@ fn main() {
                     );
                 }
                 report.insert("arith".into(), serde_json::Value::Object(unit));
+            }
+            "rbtree" | "bins" | "traverser" => {
+                let tp = verif.join("specs").join(format!("{}.vrs", u));
+                let template = std::fs::read_to_string(&tp).unwrap_or_default();
+                let g = arena::generate(&idx, &template);
+                let fname = format!("{}.rs", u);
+                std::fs::write(out.join(&fname), &g.text).unwrap();
+                let mut unit = serde_json::Map::new();
+                unit.insert(fname, json!({"template": tp.display().to_string(), "errors": g.errors, "extracted": g.extracted}));
+                report.insert(u.clone(), serde_json::Value::Object(unit));
             }
             "effect" => {
                 let prelude = std::fs::read_to_string(verif.join("specs/effect_prelude.vrs")).unwrap_or_default();
